@@ -23,26 +23,16 @@ fn div_rem_in_place_small_quotient(
     let ghost l0 = lhs@;
     let ghost ni = n as int;
     let ghost mi = m as int;
-    let ghost k = ni - mi;
     let ghost rr = val(rhs@);
-    let ghost rhi = rhs@.subrange(k, ni);
-    let ghost rlo = rhs@.subrange(0, k);
-    let ghost s0 = l0.subrange(k, ni + mi);
     let ghost a = val(l0);
     let ghost bm = pw(mi);
     let ghost bn = pw(ni);
-    let ghost p = pw(k);
+    let ghost rlo = val(rhs@.subrange(0, ni - mi));
     proof {
-        lemma_dc_split(rhs@, k);
-        lemma_dc_split(l0, k);
-        lemma_dc_split(l0, mi);
-        lemma_pw_add(mi, k);
-        lemma_pw_add(mi, ni);
-        lemma_pw_pos(mi); lemma_pw_pos(ni); lemma_pw_pos(k);
+        let rhi = rhs@.subrange(ni - mi, ni);
         assert(rhi[mi - 2] == rhs@[ni - 2] && rhi[mi - 1] == rhs@[ni - 1]);
         lemma_ds_normalized_half(rhs@, fast_div_rhs_top.divisor());
         lemma_valn_bound(l0, ni + mi);
-        assert(l0.subrange(mi, ni + mi) =~= l0.subrange(l0.len() - ni, l0.len() as int));
     }
     @*/
     // Use top m words of the divisor to get a quotient approximation. It may be too large by at most 2.
@@ -53,32 +43,16 @@ fn div_rem_in_place_small_quotient(
             .into();
     /*@
     let ghost l1 = lhs@;
-    let ghost s1 = l1.subrange(k, ni + mi);
     let ghost qo0 = q_overflow as int;
-    proof {
-        assert(s1.subrange(mi, 2 * mi) =~= l1.subrange(ni, ni + mi));
-        assert(s1.subrange(0, mi) =~= l1.subrange(k, ni));
-        assert(l1.subrange(0, k) =~= l0.subrange(0, k));
-        lemma_dc_split(l1.subrange(0, ni), k);
-        assert(l1.subrange(0, ni).subrange(0, k) =~= l1.subrange(0, k));
-        assert(l1.subrange(0, ni).subrange(k, ni) =~= l1.subrange(k, ni));
-        lemma_valn_bound(l1.subrange(ni, ni + mi), mi);
-    }
+    proof { lemma_dc_sq_rec(l0, l1, rhs@, qo0 != 0, ni, mi); }
     @*/
     let (rem, q) = lhs.split_at_mut(n);
     /*@
     let ghost rem1 = val(rem@);
     let ghost q1 = val(q@);
-    let ghost qh = q1 + qo0 * bm;
     proof {
         assert(rem@ =~= l1.subrange(0, ni));
         assert(q@ =~= l1.subrange(ni, ni + mi));
-        assert(qo0 * bm >= 0) by (nonlinear_arith) requires qo0 >= 0, bm >= 1;
-        lemma_dc_sq_setup(a, val(l0.subrange(0, k)), val(s0), p, qh, val(rhi), val(l1.subrange(k, ni)), rem1, rr, val(rlo));
-        lemma_valn_bound(rlo, k);
-        lemma_valn_bound(rem@, ni);
-        assert(q1 * val(rlo) < bm * p) by (nonlinear_arith) requires 0 <= q1 < bm, 0 <= val(rlo) < p;
-        assert(q1 * val(rlo) >= 0) by (nonlinear_arith) requires 0 <= q1, 0 <= val(rlo);
     }
     @*/
 
@@ -90,10 +64,8 @@ fn div_rem_in_place_small_quotient(
     let ghost ro2 = rem_overflow as int;
     proof {
         lemma_valn_bound(rem2, ni);
-        assert((-1) * (q1 * val(rlo)) == -(q1 * val(rlo)));
-        assert((-1) * bn == -bn && 1 * bn == bn);
-        lemma_dc_ov_bounds(val(rem2), ro2, bn, rem1 - q1 * val(rlo), -1, 1);
-        lemma_dc_split(rem2, mi);
+        assert((-1) * (q1 * rlo) == -(q1 * rlo));
+        lemma_dc_sq_mul_bounds(rem1, q1, rlo, bm, pw(ni - mi), bn, val(rem2), ro2);
     }
     @*/
     if q_overflow != 0 {
@@ -102,21 +74,19 @@ fn div_rem_in_place_small_quotient(
     /*@
     proof {
         let ro3 = rem_overflow as int;
-        lemma_dc_split(rem@, mi);
-        assert(rem@.subrange(0, mi) =~= rem2.subrange(0, mi));
         if qo0 != 0 {
-            lemma_dc_sq_sub(val(rem2), val(rem@), val(rem2.subrange(0, mi)), val(rem2.subrange(mi, ni)),
-                val(rem@.subrange(mi, ni)), ro2 - ro3, val(rlo), bm, p, bn);
-            assert(qo0 * bm == bm) by (nonlinear_arith) requires qo0 == 1;
-            assert((q1 + bm) * val(rlo) == q1 * val(rlo) + bm * val(rlo)) by (nonlinear_arith);
-            assert((ro2 - (ro2 - ro3)) * bn == ro2 * bn - (ro2 - ro3) * bn) by (nonlinear_arith);
+            lemma_dc_sq_sub_seq(rem2, rem@, rlo, ro2 - ro3, ni, mi);
         } else {
             assert(rem@ =~= rem2);
-            assert(qo0 * bm == 0) by (nonlinear_arith) requires qo0 == 0;
         }
-        assert(val(rem@) + ro3 * bn == rem1 - qh * val(rlo));
-        lemma_valn_bound(q@, mi);
-        lemma_valn_bound(rem@, ni);
+        lemma_dc_sq_inv(rem1, q1, qo0, rlo, bm, bn, val(rem2), ro2, val(rem@), ro3, ro2 - ro3);
+        let qh = q1 + qo0 * bm;
+        assert(b2i(qo0 != 0) == qo0);
+        assert(qh == val(l1.subrange(ni, ni + mi)) + b2i(qo0 != 0) * pw(mi));
+        assert(a == qh * rr + (rem1 - qh * rlo));
+        assert(val(rem@) + ro3 * bn == rem1 - qh * rlo);
+        assert(a == (val(q@) + (q_overflow as int) * bm) * rr + val(rem@) + (rem_overflow as int) * bn);
+        assert(val(rem@) + (rem_overflow as int) * bn < rr);
     }
     @*/
 
@@ -124,13 +94,13 @@ fn div_rem_in_place_small_quotient(
     while rem_overflow < 0
     /*@
         invariant
-            rem@.len() == ni, q@.len() == mi, rhs@.len() == ni, ni <= usize::MAX, bn == pw(ni), bm == pw(mi), rr == val(rhs@),
+            rem@.len() == ni, q@.len() == mi, rhs@.len() == ni, ni <= usize::MAX, mi <= usize::MAX, bn == pw(ni), bm == pw(mi), rr == val(rhs@),
             bn >= 1, bm >= 1, 0 < rr < bn,
             a >= 0,
             a == (val(q@) + (q_overflow as int) * bm) * rr + val(rem@) + (rem_overflow as int) * bn,
             val(rem@) + (rem_overflow as int) * bn < rr,
             -3 <= (rem_overflow as int) <= 1, -1 <= q_overflow as int <= 1,
-        decreases -(val(rem@) + (rem_overflow as int) * bn)
+        decreases (if val(rem@) + (rem_overflow as int) * bn < 0 { -(val(rem@) + (rem_overflow as int) * bn) } else { 0 })
     @*/
     {
         /*@
@@ -138,11 +108,7 @@ fn div_rem_in_place_small_quotient(
         proof {
             lemma_valn_bound(rem@, ni);
             lemma_valn_bound(q@, mi);
-            // the running value is negative, so the quotient so far is positive: q_overflow >= 0
-            assert(remv + ro * bn < 0) by (nonlinear_arith) requires remv < bn, ro <= -1, bn >= 1;
-            assert(qv + qo * bm > 0) by (nonlinear_arith)
-                requires (qv + qo * bm) * rr == a - (remv + ro * bn), a >= 0, remv + ro * bn < 0, rr > 0;
-            assert(qo >= 0) by (nonlinear_arith) requires qv + qo * bm > 0, qv < bm, bm >= 1;
+            lemma_dc_sq_loop_pos(a, qv, qo, remv, ro, rr, bm, bn);
         }
         @*/
         rem_overflow += SignedWord::from(add::add_same_len_in_place(rem, rhs));
@@ -157,6 +123,8 @@ fn div_rem_in_place_small_quotient(
     proof {
         lemma_valn_bound(rem@, ni);
         lemma_valn_bound(q@, mi);
+        lemma_dc_split(l0, mi);
+        assert(l0.subrange(mi, l0.len() as int) =~= l0.subrange(mi, ni + mi));
         lemma_dc_sq_exit(a, val(q@), q_overflow as int, val(rem@), rem_overflow as int, rr, bm, bn,
             val(l0.subrange(mi, ni + mi)), val(l0.subrange(0, mi)));
         assert(0 <= q_overflow <= 1);
@@ -168,6 +136,6 @@ fn div_rem_in_place_small_quotient(
     /*@ proof {
         assert(lhs@.subrange(0, ni) =~= rem@);
         assert(lhs@.subrange(ni, ni + mi) =~= q@);
-        assert(b2i(ret) * bm == (q_overflow as int) * bm) by (nonlinear_arith) requires b2i(ret) == q_overflow as int;
+        lemma_dc_sq_post(l0, lhs@, rhs@, ret, ni, mi, q_overflow as int);
     } @*/
 }
